@@ -17,7 +17,7 @@ CHECKS = {
     "C17": {
         "engine": "verus",
         "design_ref": "DESIGN.md section 5, C17",
-        "technique": "Verus function contracts + representation invariant on the extracted real text of src/sparse.rs",
+        "technique": "Verus function contracts + representation invariant on the extracted real text of src/sparse.rs; bounded Kani scenarios for the functions Verus cannot ingest",
         "text": "Unbounded proof, for all matrices and all arguments, that each verified SparseMatrix operation keeps the representation invariant (row/column mirror, indices in range, no duplicates) and changes the whole set view exactly as the corresponding set operation; idempotence clauses included.",
         "note": "Trusted: Verus/z3, the extractor's splices and normalisations N1/N5 on `remove`, vstd Vec/slice specs, assume_specification for <[T]>::contains and Vec::retain, SparseMatrix::new (external_body). Functions not under contract are listed in the evidence.",
     },
@@ -26,27 +26,27 @@ CHECKS["C06"] = {
     "engine": "verus",
     "design_ref": "DESIGN.md section 5, C06",
     "technique": "Verus function contracts on the extracted real text of src/codes/dvbs2.rs against spec tables written from EN 302 307-1",
-    "text": "Unbounded (all 21 codes, symbolically) proof that n, n-k, k and q returned by the real functions equal Tables 5a/5b/7a/7b; see the evidence for the table-shape and construction obligations currently registered.",
-    "note": "Trusted: Verus/z3, the extractor, the standard's tables as transcribed in specs/dvbs2/std.rs.in. Not decided: 4-cycle freedom, girth, encoder acceptance, equality with a pinned matrix.",
+    "text": "Unbounded (all 21 codes, symbolically) proof that n, n-k, k and q returned by the real functions equal Tables 5a/5b/7a/7b; that every address table has the standard's group count and degree profile, entries below n-k, no repeated entry in a row, and the pinned contents; and that h() never panics and returns exactly the matrix whose information part is {(x + w q) mod (n-k)} per 360-column group and whose parity part is the dual diagonal (quasi-cyclic shift law and column degrees as lemmas).",
+    "note": "Trusted: Verus/z3, the extractor, the standard's tables (n, k, q, degree profile) as transcribed in specs/dvbs2/std.rs.in, SparseMatrix::new / insert_col (external_body). The address tables are pinned to the tree the check was written against. Not decided: 4-cycle freedom, girth, encoder acceptance.",
 }
 CHECKS["C07"] = {
     "engine": "verus",
     "design_ref": "DESIGN.md section 5, C07",
-    "technique": "Verus function contracts on the extracted real text of src/codes/ccsds.rs (AR4JA part) against the Blue Book formulas",
+    "technique": "Verus function contracts and loop invariants on the extracted real text of src/codes/ccsds.rs (AR4JA and C2) against the Blue Book formulas and tables",
     "text": "Unbounded proof over all nine AR4JA codes (symbolic rate and size) that M follows Table 7-2, pi_k(i) equals the Blue Book formula and stays below M, theta/phi tables equal the pinned tables, and h() never panics or overflows and returns a well-formed 3M x (k+3M) matrix that equals the Blue Book block matrix entry by entry; and that the C2 matrix is 1022 x 8176, equals the 2 x 16 array of weight-2 511 x 511 circulants of Table 7-1 entry by entry, with row weight 32 and column weight 4.",
     "note": "Trusted: Verus/z3, the extractor (N3 on the two statics), SparseMatrix::new. Not decided: rank (AR4JA full row rank, C2 rank 1020), invertibility of the last 3M columns, girth; phi_k is pinned to the tree rather than independently transcribed.",
 }
 CHECKS["C01"] = {
     "engine": "verus",
     "design_ref": "DESIGN.md section 5, C01",
-    "technique": "Verus contract on the extracted real text of both decode() functions, generic in the arithmetic (one proof covers all 36 instantiations)",
+    "technique": "Verus contract on the extracted real text of both decode() functions, generic in the arithmetic (one proof covers all 36 instantiations); bounded Kani cross-check of the whole real 8-bit decoders",
     "text": "Unbounded proof, for every arithmetic implementing the trait, every matrix, every LLR vector and every limit below usize::MAX, that decode() of both schedules returns results satisfying the verdict / word / iteration-count relation of the property, relative to the trusted contracts of its callees.",
     "note": "Trusted: check_llrs, hard_decisions, initialize, process_* (external_body; frames derived from the source's syntactic write sets), purity of llr_hard_decision/var_llr_to_llr, one f64 axiom, parity_ok uninterpreted. The trusted contracts are cross-checked on the real 8-bit decoders (both families, both schedules) by bounded Kani harnesses on a 2x3 / 3x4 matrix for all f64 LLRs (see evidence for each bound).",
 }
 CHECKS["C10"] = {
     "engine": "verus",
     "design_ref": "DESIGN.md section 5, C10",
-    "technique": "Verus contract: decode() result equals a recursive spec function of (rules, H, LLRs, limit) in which old(self)'s buffers do not occur; callee frames derived from syntactic write sets",
+    "technique": "Verus contract: decode() result equals a recursive spec function of (rules, H, LLRs, limit) in which old(self)'s buffers do not occur; callee frames derived from syntactic write sets; bounded Kani two-call histories and scratch-buffer harnesses",
     "text": "Unbounded proof that decode() of both schedules reads no buffer that has not been rewritten since entry, so each call returns what a fresh decoder returns; state-independence per call gives every finite history.",
     "note": "Trusted: the functional claims of initialize/process_* (each buffer in a callee's write set is completely rewritten from the named inputs), scratch state inside arithmetic objects abstracted by rules(); staleness inside the trusted callees or inside an arithmetic's scratch buffers is visible only to the bounded Kani harnesses.",
 }
